@@ -37,6 +37,15 @@ var vts = []vt{
 	{"intp", "*int", "new(int)", "", []string{"HIntP(X)", "HAny(X)"}, false},
 	{"anyint", "interface{}", "12", "", []string{"HAny(X)", "HVar(X, X)", "HTwo(X, 5)"}, false},
 	{"map", "map[string]int", "map[string]int{\"k\": 1}", "", []string{"HAny(X)", "HVar(X)"}, false},
+	// values of named script types and declared (not literal) functions
+	{"namedfn", "func(int) int", "triple", "func triple(x int) int { return x * 3 }\n\n", []string{"HFn(X)", "HAny(X)"}, false},
+	{"namedmap", "MT", "MT{\"k\": 2}", "type MT map[string]int\n\n", []string{"HAny(X)", "HVar(X)"}, false},
+	{"nilnamedmap", "MT", "MT(nil)", "type MT map[string]int\n\n", []string{"HAny(X)", "HVar(X, 1)"}, false},
+	{"namedslice", "IL", "IL{7, 8}", "type IL []int\n\n", []string{"HAny(X)", "HInts(X)", "HVar(X)"}, false},
+	{"nilnamedslice", "IL", "IL(nil)", "type IL []int\n\n", []string{"HAny(X)", "HInts(X)"}, false},
+	{"nilptr", "*P", "(*P)(nil)", "type P struct {\n\tA int\n\tB string\n}\n\n", []string{"HAny(X)", "HVar(X)"}, false},
+	{"nilerr", "error", "error(nil)", "", []string{"HErr(X)", "HAny(X)"}, false},
+	{"nilfn", "func(int) int", "(func(int) int)(nil)", "", []string{"HAny(X)", "HAny(X == nil)"}, false},
 }
 
 type form struct {
@@ -91,7 +100,7 @@ func main() {
 			if f.shape && !t.shape {
 				continue
 			}
-			if f.name == "assert" && (t.name == "anyint" || t.name == "err") {
+			if f.name == "assert" && (t.name == "anyint" || t.name == "err" || t.name == "nilerr") {
 				continue // e.(interface{}) / e.(error) on a script value: an assertion question (C05), it fails before any value crosses
 			}
 			for _, h := range t.hosts {
